@@ -100,6 +100,44 @@ example : toValue exAll exAllInst =
   rfl
 example : fromValue exAll (toValue exAll exAllInst) = some exAllInst := C16_from_to _ _ (by decide) (by decide)
 
+/-- **T2**: tuple structs (items read by position, renamed fields as slots), unit structs and enums (the tag
+selects the variant) are inside `tyWF`; generic types are schemas with the parameter substituted.
+Battery types T03 (attribute + unnamed items + skipped field), E02 (unit / labelled / tuple / delegated-body /
+header-body variants) and G2<S01, Vec<i32>>. -/
+def exT03 : Ty := .struct "T03"
+  (.cons "a" true .attr (.int .i32) (.cons "" false .slot (.int .i32) (.cons "" false .skip (.int .i32)
+  (.cons "" false .slot .text .nil))))
+
+def exE02 : Ty := .enum
+  (.cons "A" .nil
+  (.cons "B" (.cons "x" true .header (.int .i32) (.cons "y" true .slot .text .nil))
+  (.cons "C" (.cons "" false .slot (.int .i32) (.cons "" false .slot .text .nil))
+  (.cons "dee" (.cons "a" true .attr (.opt (.int .i32)) (.cons "b" true .body (.list (.int .i32)) .nil))
+  (.cons "F" (.cons "hb" true .headerBody .text (.cons "k" true .skip (.int .i32) (.cons "s" true .slot (.opt exInner) .nil)))
+  .nil)))))
+
+def exG2 : Ty := .enum
+  (.cons "L" (.cons "" false .slot exInner .nil)
+  (.cons "R" (.cons "b" true .headerBody (.list (.int .i32)) (.cons "other" true .slot (.opt exInner) .nil)) .nil))
+
+/-- a struct holding them in attribute, header, slot and body position -/
+def exOuter : Ty := .struct "outer"
+  (.cons "t" true .attr exT03 (.cons "e" true .header exE02 (.cons "g" true .slot (.list exG2) (.cons "b" true .body exE02 .nil))))
+
+example : tyWF exT03 = true ∧ tyWF exE02 = true ∧ tyWF exG2 = true ∧ tyWF exOuter = true := by decide
+example : okInst exOuter (.struct [.struct [.int 1, .int 2, .int 0, .text "z"], .variant 1 [.int 5, .text "y"],
+    .list [.variant 0 [.struct [.int 1, .text "a"]], .variant 1 [.list [.int 3], .none]],
+    .variant 3 [.some (.int 9), .list [.int 1, .int 2]]]) = true := by decide
+example : fromValue exE02 (toValue exE02 (.variant 4 [.text "h", .int 0, .none])) = some (.variant 4 [.text "h", .int 0, .none]) :=
+  C16_from_to _ _ (by decide) (by decide)
+
+/-- Open (T2): `#[form(newtype)]` structs are in the executable model and in the correspondence (battery N01, N02,
+N03, S27, S34, S38) but not yet inside `tyWF`; candidate statement: -/
+def C16_newtype_from_to_open : Prop :=
+  ∀ (n : String) (l : Bool) (t : Ty) (rest : Fields) (x : Inst),
+    tyWF t = true → allSkip rest = true → okInst (.newtype (.cons n l .slot t rest)) x = true →
+    fromValue (.newtype (.cons n l .slot t rest)) (toValue (.newtype (.cons n l .slot t rest)) x) = some x
+
 /-! ### what the derive macro accepts but the layout cannot invert
 
 The unrestricted statement, over everything `#[derive(Form)]` accepts, is false of the current code: -/
@@ -124,6 +162,16 @@ def wS21 : Ty := .struct "S21" (.cons "S01" true .attr (.int .i32) (.cons "b" tr
 theorem C16_attr_named_like_body_tag_fails :
     deriveOK wS21 = true ∧ okInst wS21 (.struct [.int 1, .struct [.int 2, .text "x"]]) = true
     ∧ fromValue wS21 (toValue wS21 (.struct [.int 1, .struct [.int 2, .text "x"]])) = none := by decide
+
+/-- battery type S35: the same clash with one variant of a body enum. -/
+def wS35 : Ty := .struct "S35" (.cons "beta" true .attr (.int .i32)
+  (.cons "b" true .body (.enum (.cons "Alpha" .nil (.cons "beta" .nil .nil))) .nil))
+theorem C16_attr_named_like_variant_tag_fails :
+    deriveOK wS35 = true ∧ okInst wS35 (.struct [.int 1, .variant 1 []]) = true
+    ∧ fromValue wS35 (toValue wS35 (.struct [.int 1, .variant 1 []])) = none
+    ∧ fromValue wS35 (toValue wS35 (.struct [.int 1, .variant 0 []])) = some (.struct [.int 1, .variant 0 []]) := by
+  refine ⟨by decide, by decide, by decide, ?_⟩
+  rfl
 
 /-- battery type S29: `#[form(attr)] a: Vec<Vec<i32>>`; the empty list is read back as `vec![vec![]]` (the
 flattened alternative of `FirstOf` wins). -/
